@@ -408,7 +408,7 @@ def run(ctx: Check):
     ctx.rule = ("cases = (circuit using condition(), input valuation); non-trivial = circuits with >= 2 merged transactions "
                 "of which one ran in some valuation (blocking/nonblocking, priority, default, overlapping, nested, in methods "
                 "with one or several callers, shared callees)")
-    run_simul(ctx, "C12", gen, monitor, directed(), witness_specs, nontrivial, n_quick=36, n_thorough=1600,
+    run_simul(ctx, "C12", gen, monitor, directed(), witness_specs, nontrivial, n_quick=56, n_thorough=1600,
               descriptor=descriptor)
 
 
